@@ -44,6 +44,16 @@ func KEYCACHE(h *rt.H) {
 			u.EnableKeyCache(capacity)
 		}
 		ext := structform.EnsureExtVisitor(u)
+		// SHAREDBUF=1: all keys are delivered from ONE buffer that is rewritten for every
+		// key (what a parser reading documents into the same buffer does) and scribbled
+		// at the very end; otherwise every key has its own buffer, scribbled right away
+		shared := h.Param("SHAREDBUF", 0) == 1
+		sbuf := make([]byte, 2)
+		defer func() {
+			for j := range sbuf {
+				sbuf[j] = 0xEE
+			}
+		}()
 		for d := 0; d < 2; d++ {
 			lo, hi := 0, split
 			if d == 1 {
@@ -64,10 +74,17 @@ func KEYCACHE(h *rt.H) {
 				return r
 			}
 			for i := lo; i < hi; i++ {
-				buf := cloneBytes(keys[i])
+				var buf []byte
+				if shared {
+					buf = sbuf[:copy(sbuf, keys[i])]
+				} else {
+					buf = cloneBytes(keys[i])
+				}
 				r.err = ext.OnKeyRef(buf)
-				for j := range buf {
-					buf[j] = 0xEE
+				if !shared {
+					for j := range buf {
+						buf[j] = 0xEE
+					}
 				}
 				if r.err == nil {
 					r.err = ext.OnInt8(vals[i])
